@@ -1284,6 +1284,9 @@ impl<'a> GeneratorState<'a> {
             }
             Statement::Asm(s, size) => {
                 self.generate_asm_statement(s, *size)?;
+                // Inline assembly may leave anything in the flags
+                self.flags = FlagsState::Unknown;
+                self.carry_flag_ok = false;
             }
             Statement::Strobe(s) => {
                 self.generate_strobe_statement(s, code.pos)?;
